@@ -76,6 +76,9 @@ def data_and_options(cfg, val, sym):
             opts["showBorder"] = True
         if cfg.get("padding"):
             opts["labelPadding"] = dict(cfg["padding"])
+        if cfg.get("size"):
+            W, H, m = cfg["size"]
+            opts.update(initialWidth=W, initialHeight=H, margin=dict(m))
     elif ov == "empty":
         pass
     elif ov == "none":
@@ -349,7 +352,7 @@ def affine_fn(cfg, tl):
     from . import pic
 
     sc = cfg["scale"]
-    L = pic.LEN
+    L = pic.axis_len(cfg)
     if sc == "linear-explicit":
         return lambda t: (t if isinstance(t, E.SymNum) else Fraction(t)) * Fraction(L) / Fraction(D1 - D0) - Fraction(D0) * L / Fraction(D1 - D0)
     if sc == "time-explicit":
@@ -403,6 +406,12 @@ def pic_configs(tier, prop):
             for d in DIRS:
                 k += 1
                 out.append(mk_cfg("%s-%s-%s-%s-n2" % (prop, mode, sc, d), mode=mode, scale=sc, direction=d, n=2, texts=[k % 5, (k + 2) % 5], ticks=bool(k % 3)))
+    # other drawing sizes and margins (the axis length is initialWidth/Height minus the margins of that orientation)
+    for mode in ("svg", "tex"):
+        for d in DIRS:
+            k += 1
+            out.append(mk_cfg("%s-%s-size-%s" % (prop, mode, d), mode=mode, scale=("linear-explicit", "time-explicit")[k % 2], direction=d, n=2, texts=[k % 5, 0],
+                              size=[640, 333, dict(left=31, right=17, top=9, bottom=44)], ticks=True))
     # layers and stubs: crowded labels with an upper bound, contract stub for vpsc
     for mode in ("svg", "tex"):
         for d in DIRS:
